@@ -1,6 +1,7 @@
 package main
 
 import (
+	"os"
 	"fmt"
 	"go/token"
 	"go/types"
@@ -129,6 +130,12 @@ func (fr *Frame) doCallInner(st *State, instr ssa.Value, c *ssa.CallCommon, pos 
 
 	// closure call: resolve statically if the value is a known closure
 	if key == "" {
+		if dn := dynCallName(c.Value); dn != "" {
+			// call-site clauses on a named function value (parameter, captured variable, field)
+			fr.atCallArgs = args
+			fr.atCall(st, "dyn."+dn, c, pos)
+			fr.atCallArgs = nil
+		}
 		if cl, ok := fr.closures[c.Value]; ok {
 			return fr.callClosure(st, cl, args, pos)
 		}
@@ -1139,6 +1146,9 @@ func (fr *Frame) loopWrites(li *loopInfo) (locals []*ssa.Alloc, comps []string, 
 			}
 			if fc.instrWrites(in, fr.promoted, out, map[*ssa.Function]bool{}) {
 				all = true
+				if os.Getenv("GOVC_DEBUG_WRITES") != "" {
+					fmt.Fprintf(os.Stderr, "loopWrites: everything, because of %s at %s\n", in.String(), fc.w.prog.Fset.Position(in.Pos()))
+				}
 			}
 			// closures called in the loop may write captured promoted... (captured variables are
 			// never promoted, they live in boxes)
